@@ -166,6 +166,41 @@ def program(kind, prog, dim=1, nomon=False):
     return h
 
 
+def collapse_solve(kind):
+    """Solve() whose termination fires a collapse: the iterations performed after the collapse are still logged one record and
+    one callback each"""
+    def h(ctx):
+        import mystic.termination as mt
+        n = 2
+        w = L.World(ctx, n)
+        s = S.make_solver(kind, n)
+        tol, window, target = 0.25, 1, 0.5
+        s.SetTermination(mt.Or(mt.VTR(-1.0), mt.CollapseAt(target, tolerance=tol, generations=window)))
+        s.SetObjective(w.cost)
+        x0 = ctx.reals('x', n)
+        ctx.assume(le(absv(x0[0] - target), tol))
+        ctx.assume(gt(absv(x0[1] - target), tol + 5.0))       # coordinate 1 stays away from the band for the unrolled steps
+        if kind in ('DE', 'DE2'):
+            for i in range(s.nPop):
+                s.population[i] = list(x0)
+            stubs.ORACLE.override = S.FixedDraws()
+        else:
+            s.population[0] = list(x0)
+        s.SetEvaluationLimits(generations=3)
+        try:
+            s.Solve(callback=w.callback)
+        finally:
+            stubs.ORACLE.override = None
+        gens = s.generations
+        obs = [('stopped-by-the-generation-limit', const(gens == 3)),
+               ('one-callback-per-iteration-including-after-the-collapse', const(len(w.callbacks) == len(s._stepmon))),
+               ('evaluations==total-cost-calls', eq(s.evaluations, len(w.calls)))]
+        if w.callbacks:
+            obs.append(('last-callback-got-the-final-best', veq(w.callbacks[-1], L.vec(s.bestSolution))))
+        return obs
+    return h
+
+
 def programs(tier):
     q = tier == 'quick'
     out = []
@@ -208,6 +243,8 @@ def instances(tier, seed):
         for cfg in ('plain', 'box+cons+pen'):
             for mi in ((1,) if q else (0, 1, 2)):
                 out.append(Instance('wrapper/%s/%s/maxiter=%d' % (kind, cfg, mi), S.wrapper(kind, cfg, 1, mi, oblig)))
+    for kind in (('NM',) if q else ('NM', 'DE')):
+        out.append(Instance('collapse-solve/%s' % kind, collapse_solve(kind), qtimeout=6000))
     for kind, p in programs(tier):
         nomon = p[0] == 'nomon'
         out.append(Instance('program/%s/%s' % (kind, '-'.join(p)), program(kind, p[1:] if nomon else p, nomon=nomon)))
